@@ -368,7 +368,8 @@ func init() {
 			a := append(append([]int64{}, in.Args...), 0)
 			out = append(out, Inst{Pkg: "knxnet", Fn: "HarnessC15Pack", Args: a, Unwind: 2000})
 			if a[2] <= 2 && a[3] <= 16 {
-				out = append(out, Inst{Pkg: "knxnet", Fn: "HarnessC15Send", Args: a, Unwind: 2000})
+				out = append(out, Inst{Pkg: "knxnet", Fn: "HarnessC15Send", Args: a, Unwind: 2000},
+					Inst{Pkg: "knxnet", Fn: "HarnessC15SendRouter", Args: a, Unwind: 2000, NoNative: true})
 			}
 		}
 		over := []int64{256, 300}
@@ -400,9 +401,9 @@ func init() {
 		ID:       "C15",
 		Quick:    func(l *loaded) []Inst { return c15(false) },
 		Thorough: func(l *loaded) []Inst { return c15(true) },
-		Covers:   []string{"C15.end", "C15.send.end"},
-		Bounds:   "every value shape of C02 (quick bounds) plus oversize parts: additional info and application data of {256,300} (thorough 255..600) bytes, empty application data, friendly names of {30,31} (thorough 29..80) characters and names with a rune beyond Latin-1; buffer of exactly Size() bytes pre-filled with symbolic stale bytes, followed by 8 guard bytes; TunnelSocket.Send through a recording net.Conn",
-		Outside:  "RouterSocket.Send (concrete *net.UDPConn; same three statements as TunnelSocket.Send); stale-independence is decided syntactically on the output terms (no output byte may mention a stale variable) and confirmed natively by re-running with different stale bytes",
+		Covers:   []string{"C15.end", "C15.send.end", "C15.sendrouter.end"},
+		Bounds:   "every value shape of C02 (quick bounds) plus oversize parts: additional info and application data of {256,300} (thorough 255..600) bytes, empty application data, friendly names of {30,31} (thorough 29..80) characters and names with a rune beyond Latin-1; buffer of exactly Size() bytes pre-filled with symbolic stale bytes, followed by 8 guard bytes; TunnelSocket.Send through a recording net.Conn and RouterSocket.Send through the WriteToUDP stub",
+		Outside:  "stale-independence is decided syntactically on the output terms (no output byte may mention a stale variable) and confirmed natively by re-running with different stale bytes",
 	})
 
 	reg(&Spec{
@@ -720,6 +721,13 @@ func init() {
 		for _, L := range []int64{1, 6, 8, 10, 12} {
 			out = append(out, Inst{Pkg: "knxnet", Fn: "HarnessC16UDP", Args: []int64{1, 3, L}, Note: "arbitrary datagram first, buffer reused"})
 		}
+		for udp := int64(0); udp < 2; udp++ {
+			for pend := int64(0); pend <= 2; pend++ {
+				for late := int64(0); late < 2; late++ {
+					out = append(out, Inst{Pkg: "knxnet", Fn: "HarnessC16Close", Args: []int64{udp, pend, late}, Note: "Close ends the receiver"})
+				}
+			}
+		}
 		out = append(out, Inst{Pkg: "knxnet", Fn: "HarnessC16ConcurrentSend", Args: []int64{2}, Note: "two concurrent senders, every interleaving around Write"})
 		if thorough {
 			out = append(out, Inst{Pkg: "knxnet", Fn: "HarnessC16ConcurrentSend", Args: []int64{3}, Ctx: 3})
@@ -738,9 +746,9 @@ func init() {
 		NoNative: true,
 		Quick:    func(l *loaded) []Inst { return c16(false) },
 		Thorough: func(l *loaded) []Inst { return c16(true) },
-		Covers:   []string{"C16.tcp.end", "C16.tcpbad.end", "C16.udp.end", "C16.hostinfo.nat", "C16.hostinfo.local", "C16.send.concurrent.end"},
+		Covers:   []string{"C16.tcp.end", "C16.tcpbad.end", "C16.udp.end", "C16.hostinfo.nat", "C16.hostinfo.local", "C16.send.concurrent.end", "C16.close.end"},
 		Bounds:   "real serveTCPSocket (with the real bufio.Reader and io.ReadFull) on streams of 1..2 (thorough 3) concatenated frames of four service types with symbolic field values, the Read stub returning: every placement of up to 2 (3) cut points, 1-byte dribble, or everything at once, then EOF; a frame with arbitrary body followed by a good one; a header announcing total length 0..5 (symbolic); real serveUDPSocket on 1..2 (3) datagrams, optionally preceded by an arbitrary symbolic datagram of 1..12 bytes into the reused 1024-byte buffer; Tunnel.hostInfo through requestConn for UDP/TCP/other sockets with and without SendLocalAddress; 2 (thorough 3) goroutines sending different frames through one TunnelSocket whose Write is a scheduling point",
-		Outside:  "50-frame streams (the receiver keeps no state between frames other than bufio's buffer); more than 3 cut points at once; more than 2 (thorough 3) concurrent senders; Close racing with a blocked 'inbound <-' (the receiver goroutine then stays blocked until the application reads: not decided here); kernel sockets, Dial*/Listen*, address parsing inside HostInfoFromAddress (redirected to an environment function)",
+		Outside:  "50-frame streams (the receiver keeps no state between frames other than bufio's buffer); more than 3 cut points at once; more than 2 (thorough 3) concurrent senders; an application that never reads again after Close (a receiver blocked on an undelivered frame ends only when that frame is read; decided here: Close with 0..2 decoded frames pending and a reader that drains); kernel sockets, Dial*/Listen*, address parsing inside HostInfoFromAddress (redirected to an environment function)",
 		Assume:   []string{"(*net.TCPConn).Read / (*net.UDPConn).ReadFromUDP are engine stubs obeying the io.Reader contract with nondeterministic segment sizes"},
 	})
 	c20 := func(maxK int64) []Inst {
